@@ -26,6 +26,8 @@ package main
 // mainnet, testnet3 or regtest; the stack of that store is configured like cmd/main.go does
 // (cfg.P2P.ChainNetType -> database.Init inserts cfg.P2P.GetNetParams() genesis, service.NewServices).
 // Runs of consecutive ids a,a+1,..,b (at least 3) are printed a-b in id lists.
+// In a locator `<id>*<n>` stands for the n ids id, id+1, .., id+n-1 (used for locators of tens of thousands of
+// unknown hashes, beyond the bind-variable limit of SQLite).
 // Ids in queries: 0 = zero hash, 1 = genesis, ids defined by no submission = unknown hashes.
 
 import (
@@ -46,7 +48,7 @@ import (
 func init() {
 	register("C13", runC13)
 	registerDump("Params", func() (string, error) {
-		return fmt.Sprintf("From Coq Require Import ZArith.\nOpen Scope Z_scope.\n(* wire.MaxCFHeadersPerMsg: the cap locateHeadersGetHeaders applies *)\nDefinition max_headers_per_msg : Z := %d.\n", wire.MaxCFHeadersPerMsg), nil
+		return fmt.Sprintf("From Coq Require Import ZArith.\nOpen Scope Z_scope.\n(* wire.MaxCFHeadersPerMsg: the cap locateHeadersGetHeaders applies *)\nDefinition max_headers_per_msg : Z := %d.\n(* wire.MaxBlockLocatorsPerMsg: the most locator hashes a getheaders message can carry *)\nDefinition max_block_locators_per_msg : Z := %d.\n", wire.MaxCFHeadersPerMsg, wire.MaxBlockLocatorsPerMsg), nil
 	})
 }
 
@@ -300,6 +302,8 @@ func c13ErrClass(err error) string {
 		return "E:nolocators"
 	case strings.Contains(err.Error(), "hashStop is lower than first valid height"):
 		return "E:stoplow"
+	case strings.Contains(err.Error(), "error getting headers of locators"):
+		return "E:locator-lookup"
 	}
 	return "E:other"
 }
@@ -490,6 +494,17 @@ func c13ParseQuery(q string) ([]int, int, error) {
 	var loc []int
 	for _, x := range strings.Split(parts[0], ",") {
 		if x == "" {
+			continue
+		}
+		if i := strings.Index(x, "*"); i > 0 {
+			a, err1 := strconv.Atoi(x[:i])
+			n, err2 := strconv.Atoi(x[i+1:])
+			if err1 != nil || err2 != nil || n < 0 || n > 1000000 {
+				return nil, 0, fmt.Errorf("bad run %q", x)
+			}
+			for k := 0; k < n; k++ {
+				loc = append(loc, a+k)
+			}
 			continue
 		}
 		v, err := strconv.Atoi(x)
@@ -1043,6 +1058,42 @@ func runC13(c *Ctx) error {
 		}
 		r.longLocators(st, sizes)
 		c.Count("gen:medium-linear-long-locators")
+	}
+	// locators around and beyond SQLite's bind-variable limit (SQLITE_MAX_VARIABLE_NUMBER, 32766 by default): mostly
+	// unknown hashes, a few longest-chain hashes at known positions (first / middle / last) or none at all
+	{
+		var sb strings.Builder
+		fmt.Fprintf(&sb, "%s;linear=64", head)
+		fmt.Fprintf(&sb, ";%s", Sub{ID: 80, Prev: 50, Bits: bitsW2, Ver: 1, Merkle: 180, TS: 1700000080, Nonce: 80})
+		fmt.Fprintf(&sb, ";%s", Sub{ID: 81, Prev: 80, Bits: bitsW2, Ver: 1, Merkle: 181, TS: 1700000081, Nonce: 81})
+		fmt.Fprintf(&sb, ";%s", Sub{ID: 82, Prev: 800903, Bits: bitsW2, Ver: 1, Merkle: 182, TS: 1700000082, Nonce: 82})
+		st, err := c13Build(r, sb.String())
+		if err != nil {
+			return err
+		}
+		r.emit(st, "st")
+		r.emit(st, "loc")
+		const u = 1000000 // first unknown id of the runs
+		for _, n := range []int{32765, 32766, 32767, 32768, 40001} {
+			half := n / 2
+			locs := []string{
+				fmt.Sprintf("%d*%d", u, n),                                         // all unknown
+				fmt.Sprintf("61,%d*%d", u, n-1),                                     // a longest-chain hash first
+				fmt.Sprintf("%d*%d,40,%d*%d", u, half, u+half, n-half-1),            // in the middle
+				fmt.Sprintf("%d*%d,55", u, n-1),                                     // last
+				fmt.Sprintf("30,%d*%d,81,60,%d*%d,12", u, half, u+half, n-half-4),   // several, a stale one among them
+			}
+			for i, l := range locs {
+				for _, sp := range []int{0, 63} {
+					if i > 1 && sp != 0 && n != 40001 {
+						continue
+					}
+					r.emit(st, fmt.Sprintf("q=%s/%d", l, sp))
+				}
+			}
+			c.Count("locator:around-sql-variable-limit")
+		}
+		c.Count("gen:over-long-locators")
 	}
 	// the network dimension: stores on the testnet and regtest genesis (configured as cmd/main.go does); all the
 	// stop-hash families (genesis, zero, ahead, behind, stale, orphan, unknown) and the empty / unknown locators
